@@ -105,11 +105,12 @@ Definition G_getDiagonal (sqclass : bool) (d : dense) (shift : Z) : res (list Q)
         let icol := (Z.of_nat r + (if (0 <? shift)%Z then shift else 0))%Z in
         if ((irow <? 0) || (Z.of_nat (nr d) <=? irow) || (icol <? 0) || (Z.of_nat (nc d) <=? icol))%Z%bool then []
         else [getv d (Z.to_nat irow) (Z.to_nat icol)]) (seq 0 (nr d))).
-(* AMatrix::setDiagonal AMatrix.cpp:1084 (flagCheck=true: _isRowSizeConsistent) *)
+(* AMatrix::setDiagonal AMatrix.cpp:1084 (flagCheck=true: _isRowSizeConsistent): every physically present term is
+   rewritten, tab[irow] on the diagonal and 0 elsewhere *)
 Definition G_setDiagonal (sqclass sym : bool) (d : dense) (t : list Q) : res dense :=
   if negb (isSquare sqclass d) then Ok d
   else if negb (length t =? nc d)%nat then Ok d
-  else Ok (fold_left (fun s i => if (nc d <=? i)%nat then s else setValue sym s i i (nth i t 0)) (seq 0 (nr d)) d).
+  else Ok (loop_set sym (rowmajor (nr d) (nc d)) (fun i j _ => if (i =? j)%nat then nth i t 0 else 0) d).
 (* AMatrix::addScalar AMatrix.cpp:397 (loop on ranks) *)
 Definition G_addScalar (d : dense) (v : Q) : res dense :=
   if isZero v then Ok d else Ok (mkD (nr d) (nc d) (map (fun x => x + v) (dat d))).
@@ -147,16 +148,14 @@ Definition G_linearCombination (sym : bool) (d : dense) (c1 : Q) (m1 : option de
    asserts the index range: a loop nest that reads or writes outside a matrix is an Eigen contract violation *)
 Definition covers (d : dense) (m n : nat) : bool := (m <=? nr d)%nat && (n <=? nc d)%nat.
 (* AMatrix::prodMatMatInPlace AMatrix.cpp:577 ; _checkLink is inactive (_flagCheckAddress = false).
-   ni2/nm2 are computed as in the source: the guard compares the inner dimension of op(x) with the number of *columns*
-   of op(y), and the column loop runs over its number of *rows* *)
+   ni2 = rows of op(y), nm2 = columns of op(y) *)
 Definition G_prodMatMat (sym : bool) (d x y : dense) (tx ty : bool) : res dense :=
   let ni1 := if tx then nc x else nr x in
   let nm1 := if tx then nr x else nc x in
-  let ni2 := if ty then nr y else nc y in
-  let nm2 := if ty then nc y else nr y in
+  let ni2 := if ty then nc y else nr y in
+  let nm2 := if ty then nr y else nc y in
   if negb (nm1 =? ni2)%nat then Ok d
-  else if (0 <? ni1)%nat && (0 <? nm2)%nat &&
-          (negb (covers d ni1 nm2) || ((0 <? nm1)%nat && negb (nr y =? nc y)%nat)) then UB ub_index
+  else if (0 <? ni1)%nat && (0 <? nm2)%nat && negb (covers d ni1 nm2) then UB ub_index
   else Ok (loop_set sym (rowmajor ni1 nm2)
              (fun i j _ => sumn nm1 (fun k => (if tx then getv x k i else getv x i k) *
                                               (if ty then getv y j k else getv y k j))) d).
@@ -172,12 +171,11 @@ Definition G_prodNormMatMat (sym : bool) (d a m : dense) (t : bool) : res dense 
 Definition G_prodNormMatVec (sym : bool) (d a : dense) (v : list Q) (t : bool) : res dense :=
   let n1 := if t then nc a else nr a in
   let n2 := if t then nr a else nc a in
-  (* a_kj is read as a(j,k) when transposed and a(k,j) otherwise (AMatrix.cpp:663): outside the matrix unless n1 = n2 *)
-  if (0 <? n1)%nat && (negb (covers d n1 n1) || ((0 <? n2)%nat && negb (n1 =? n2)%nat)) then UB ub_index else
+  if (0 <? n1)%nat && negb (covers d n1 n1) then UB ub_index else
   Ok (loop_set sym (rowmajor n1 n1)
         (fun i j _ => sumn n2 (fun k =>
              (if t then getv a k i else getv a i k) * (match v with [] => 1 | _ => nth k v 0 end) *
-             (if t then getv a j k else getv a k j))) d).
+             (if t then getv a k j else getv a j k))) d).
 (* AMatrix::copyReduce AMatrix.cpp:1290 *)
 Definition G_copyReduce (sym : bool) (d x : dense) (rows cols : list nat) : res dense :=
   if negb (length rows =? 0)%nat && negb (length cols =? 0)%nat &&
@@ -226,6 +224,7 @@ Definition R_unsample (sym : bool) (d a : dense) (rf cf : list nat) (ir ic : boo
          (rowmajor (length rows) (length cols)) d.
 
 (* ================================================================== Eigen primitives as contract calls *)
+
 Definition dimr (t : bool) (d : dense) : nat := if t then nc d else nr d.
 Definition dimc (t : bool) (d : dense) : nat := if t then nr d else nc d.
 (* op(A) * op(B)   (Product.h:96) *)
@@ -284,36 +283,36 @@ Definition D_transpose (d : dense) : res dense := Ok (tab (nc d) (nr d) (mT (abs
 (* AMatrixDense::addScalar / prodScalar AMatrixDense.cpp:239,249 *)
 Definition D_addScalar (d : dense) (v : Q) : res dense := Ok (mkD (nr d) (nc d) (map (fun x => x + v) (dat d))).
 Definition D_prodScalar (d : dense) (v : Q) : res dense := Ok (mkD (nr d) (nc d) (map (fun x => x * v) (dat d))).
-(* AMatrixDense::multiplyRow AMatrixDense.cpp:359: Map(vec, getNCols()).asDiagonal() * _eigenMatrix *)
+(* AMatrixDense::multiplyRow AMatrixDense.cpp:359: Map(vec, getNRows()).asDiagonal() * _eigenMatrix *)
 Definition D_multiplyRow (d : dense) (v : list Q) : res dense :=
-  rbind (e_map v (nc d)) (fun vm => e_diag_left vm d).
-(* AMatrixDense::multiplyColumn AMatrixDense.cpp:366: _eigenMatrix * Map(vec, getNRows()).asDiagonal() *)
+  rbind (e_map v (nr d)) (fun vm => e_diag_left vm d).
+(* AMatrixDense::multiplyColumn AMatrixDense.cpp:366: _eigenMatrix * Map(vec, getNCols()).asDiagonal() *)
 Definition D_multiplyColumn (d : dense) (v : list Q) : res dense :=
-  rbind (e_map v (nr d)) (fun vm => e_diag_right d vm).
+  rbind (e_map v (nc d)) (fun vm => e_diag_right d vm).
 (* VectorHelper::inverse VectorHelper.cpp:1727 (1/0 = inf in binary64: excluded by the generators, 0 here) *)
 Definition vh_inverse (v : list Q) : list Q := map (fun x => 1 / x) v.
 (* AMatrixDense::divideRow / divideColumn AMatrixDense.cpp:373,381 *)
 Definition D_divideRow (d : dense) (v : list Q) : res dense :=
-  rbind (e_map (vh_inverse v) (nc d)) (fun vm => e_diag_left vm d).
+  rbind (e_map (vh_inverse v) (nr d)) (fun vm => e_diag_left vm d).
 Definition D_divideColumn (d : dense) (v : list Q) : res dense :=
-  rbind (e_map (vh_inverse v) (nr d)) (fun vm => e_diag_right d vm).
+  rbind (e_map (vh_inverse v) (nc d)) (fun vm => e_diag_right d vm).
 (* AMatrixDense::addMatInPlace AMatrixDense.cpp:254 *)
 Definition D_addMat (d y : dense) (cx cy : Q) : res dense := e_lin2 cx d cy y.
 (* AMatrix::prodMatVecInPlace(VectorDouble) AMatrix.cpp:441 -> AMatrixDense::_addProdMatVecInPlaceToDestPtr AMatrixDense.cpp:152
-   xm = Map(x, getNCols()), ym = Map(y, getNRows()), ym += op(M) * xm *)
+   xm = Map(x, transpose ? nrows : ncols), ym = Map(y, transpose ? ncols : nrows), ym += op(M) * xm *)
 Definition D_prodMatVecInPlace (d : dense) (x y : list Q) (t : bool) : res (list Q) :=
-  rbind (e_map x (nc d)) (fun xm =>
-  rbind (e_map (map (fun _ => 0) y) (nr d)) (fun ym =>
+  rbind (e_map x (dimc t d)) (fun xm =>
+  rbind (e_map (map (fun _ => 0) y) (dimr t d)) (fun ym =>
   rbind (e_mulvec t d xm) (fun r =>
   rbind (e_assign_map (length ym) r) (fun r' =>
-  Ok (map (fun p => fst p + snd p) (combine ym r') ++ skipn (nr d) (map (fun _ => 0) y)))))).
+  Ok (map (fun p => fst p + snd p) (combine ym r') ++ skipn (dimr t d) (map (fun _ => 0) y)))))).
 (* AMatrix::prodVecMatInPlace AMatrix.cpp:506 -> AMatrixDense::_prodVecMatInPlacePtr AMatrixDense.cpp:174
-   xm = Map(x, getNRows()), ym = Map(y, getNCols()), ym = xm^T * op(M) *)
+   xm = Map(x, transpose ? ncols : nrows), ym = Map(y, transpose ? nrows : ncols), ym = xm^T * op(M) *)
 Definition D_prodVecMatInPlace (d : dense) (x y : list Q) (t : bool) : res (list Q) :=
-  rbind (e_map x (nr d)) (fun xm =>
-  rbind (e_map y (nc d)) (fun ym =>
+  rbind (e_map x (dimr t d)) (fun xm =>
+  rbind (e_map y (dimc t d)) (fun ym =>
   rbind (e_vecmul xm t d) (fun r =>
-  rbind (e_assign_map (length ym) r) (fun r' => Ok (r' ++ skipn (nc d) y))))).
+  rbind (e_assign_map (length ym) r) (fun r' => Ok (r' ++ skipn (dimc t d) y))))).
 (* AMatrixDense::prodMatVec AMatrixDense.cpp:402 *)
 Definition D_prodMatVec (d : dense) (x : list Q) (t : bool) : res (list Q) :=
   rbind (e_mulvec t d x) (fun r => e_assign_map (if t then nc d else nr d) r).
@@ -326,11 +325,13 @@ Definition D_prodMatMat (d x y : dense) (tx ty : bool) : res dense :=
 (* AMatrixDense::prodNormMatMatInPlace AMatrixDense.cpp:308 *)
 Definition D_prodNormMatMat (d a m : dense) (t : bool) : res dense :=
   rbind (e_mul t false a m) (fun am => rbind (e_mul false (negb t) am a) (e_store d)).
-(* AMatrixDense::prodNormMatVecInPlace AMatrixDense.cpp:329.  With a non-empty [vec] the code multiplies by the mapped
-   *vector* (vecm, a (size x 1) matrix), not by vecm.asDiagonal(). *)
-Definition colvec (v : list Q) : dense := mkD (length v) 1 v.
+(* op(A) * v.asDiagonal() *)
+Definition e_mul_diag (ta : bool) (a : dense) (v : list Q) : res dense :=
+  if (dimc ta a =? length v)%nat
+  then Ok (tab (dimr ta a) (dimc ta a) (mcolscale (vl v) (opT ta (absd a)))) else UB ub_product.
+(* AMatrixDense::prodNormMatVecInPlace AMatrixDense.cpp:329: op(a) * vecm.asDiagonal() * op'(a) *)
 Definition D_prodNormMatVec (d a : dense) (v : list Q) (t : bool) : res dense :=
   match v with
   | [] => rbind (e_mul t (negb t) a a) (e_store d)
-  | _ => rbind (e_mul t false a (colvec v)) (fun av => rbind (e_mul false (negb t) av a) (e_store d))
+  | _ => rbind (e_mul_diag t a v) (fun av => rbind (e_mul false (negb t) av a) (e_store d))
   end.
